@@ -343,7 +343,7 @@ func visitInstr(fr *frame, instr ssa.Instruction) continuation {
 	case *ssa.IndexAddr:
 		x := fr.get(instr.X)
 		idx := fr.get(instr.Index)
-		idx = concIndex(x, idx)
+		idx = concIndex(x, idx, instr.Index.Type())
 		switch x := x.(type) {
 		case []value:
 			fr.env[instr] = &x[asInt64(idx)]
@@ -356,7 +356,7 @@ func visitInstr(fr *frame, instr ssa.Instruction) continuation {
 	case *ssa.Index:
 		x := fr.get(instr.X)
 		idx := fr.get(instr.Index)
-		idx = concIndex(x, idx)
+		idx = concIndex(x, idx, instr.Index.Type())
 
 		switch x := x.(type) {
 		case array:
